@@ -65,6 +65,16 @@ def handle : List String → String
     match nats start with
     | some s => " ".intercalate (runHist s ops)
     | none => "bad-request"
+  -- the same history through IotaDocument's own methods: the same model answers
+  | "ihist" :: start :: ops =>
+    match nats start with
+    | some s => " ".intercalate (runHist s ops)
+    | none => "bad-request"
+  -- several trusted issuers: the status is looked up in the document whose id EQUALS the credential's issuer (the first set)
+  | ["statusm", _order, i, a, _b] =>
+    match i.toNat?, nats a with
+    | some i, some a => if i ∈ a then "revoked" else "ok"
+    | _, _ => "bad-request"
   | ["status", sc, ty, ip, qs, idok, issuer, svc] =>
     let sc? : Option StatusCheck := if sc == "strict" then some .strict else if sc == "skipu" then some .skipUnsupported
       else if sc == "skipall" then some .skipAll else none
